@@ -180,7 +180,11 @@ func (e *exec) Body() {
 			name, idxs := name, bySeries[name]
 			vrt.GoNamed("conn-"+name, func() {
 				for _, i := range idxs {
+					t0 := vrt.Elapsed()
 					r.Dispatch([]byte(fmt.Sprintf("%s %d %d", name, i, 1000+i)))
+					if !e.p.blocking && vrt.Elapsed() != t0 && e.viol == "" {
+						e.viol = fmt.Sprintf("non-blocking mode: dispatching metric %d (series %s, one of several input connections) took virtual time: it waited for the queue although a full queue must drop", i, name)
+					}
 				}
 				finished++
 			})
@@ -353,6 +357,22 @@ func main() {
 				scns = append(scns, &vrt.Scenario{Name: p.String(), Cfg: vrt.Config{MaxSteps: 50000, Horizon: 30 * time.Minute, Groups: map[string]bool{"c17": true}}, Model: vrt.CostDelay, Bound: bound + 1,
 					New: func() vrt.Exec { return &exec{p: p} }})
 			}
+		}
+	}
+	// two input connections whose series share a shard, a queue of 1-2 slots and a worker that is kept
+	// busy by failing requests: the full-queue decision is taken by both at the last free slot
+	for _, buf := range []int{1, 2} {
+		for _, blocking := range []bool{false, true} {
+			if blocking && !rep.Thorough() {
+				continue
+			}
+			st := []string{a, b, a, b}
+			if rep.Thorough() {
+				st = []string{a, b, a, b, a, b}
+			}
+			p := params{conc: 1, bufSize: buf, flushMaxNum: 1, blocking: blocking, stream: st, maxFail: 1, dispatchers: 2}
+			scns = append(scns, &vrt.Scenario{Name: p.String(), Cfg: vrt.Config{MaxSteps: 50000, Horizon: 30 * time.Minute, Groups: map[string]bool{"c17": true}}, Model: vrt.CostDelay, Bound: bound + 1,
+				New: func() vrt.Exec { return &exec{p: p} }})
 		}
 	}
 	sort.SliceStable(scns, func(i, j int) bool { return len(scns[i].Name) < len(scns[j].Name) })
